@@ -146,6 +146,9 @@ class Gen:
             m = self.wl_max
             cands = [0.005, 0.004, 0.0049999, 0.015, 0.025, 1.005, 2.675, 10.125, 0.125, m, 2 * m, m - 0.005,
                      math.nextafter(m, math.inf), math.nextafter(m, 0.0), m + 0.004, 3 * m + 0.005]
+            if m == int(m) and m <= 50:
+                # a split whose last part is below the printed resolution: m-1 (or more) full steps and a crumb
+                cands += [(m - 1) * m + 0.004, m * m + 0.0049, (m + 2) * m + 0.001, (m - 1) * m + 0.006]
             cands = [c for c in cands if 0 < c <= h]
             if cands:
                 return rng.choice(cands)
@@ -403,6 +406,18 @@ class Gen:
             rm_budget[s] -= v
             add_budget[d] -= v
             vols.append(v)
+        m = self.wl_max
+        if intent == "ok" and vols and self.regime == "free" and self.auto_split and m == int(m) and m <= 50 and rng.random() < 0.15:
+            # a split whose last part is a crumb below the printed resolution: (m-1) or more full steps + 0.00x
+            k = rng.randrange(len(vols))
+            room = min(rm_budget[sw[k]], add_budget[dw[k]]) + vols[k]
+            cands = [c for c in ((m - 1) * m + 0.004, m * m + 0.0049, (m + 2) * m + 0.001, (m - 1) * m + 0.006) if c <= room]
+            if cands:
+                rm_budget[sw[k]] += vols[k]
+                add_budget[dw[k]] += vols[k]
+                vols[k] = rng.choice(cands)
+                rm_budget[sw[k]] -= vols[k]
+                add_budget[dw[k]] -= vols[k]
         if intent != "ok" and vols:
             k = rng.randrange(len(vols))
             how = self.pick_how()
